@@ -50,6 +50,10 @@ def viz_case(draw, max_tasks=7):
             cu['network_bar_style'] = {'fill': '#f9f', 'stroke-width': '2px'}
         if draw(st.integers(0, 5)) == 0:
             cu['gantt_open'] = draw(st.sampled_from(['true', 'false']))
+        if draw(st.integers(0, 5)) == 0:
+            # user attributes named like keys of a chart entry must not replace the entry's own values
+            k = draw(st.sampled_from(['progress', 'text', 'type', 'open', 'css_class', 'start_date', 'end_date', 'target', 'source']))
+            cu[k] = draw(st.sampled_from(['50', 'in review', 7, 2.5]))
         t['custom'] = cu
     c['options'] = dict(title=draw(st.sampled_from([None, 'Plan 2026', 'Q1'])), weekends=draw(st.booleans()),
                         tick=draw(st.sampled_from([None, '1day', '1week'])), scale=draw(st.sampled_from(['day', 'month', 'year', 'other'])),
